@@ -8,7 +8,7 @@ from ..gen import Scenario, op, send, pki
 
 ID = "C18"
 BUDGET = {"quick": 45, "thorough": 900}
-MAX_RUNS = {"quick": 1200, "thorough": 300000}
+MAX_RUNS = {"quick": 5000, "thorough": 300000}
 TECHNIQUE = "deterministic simulation (hermetic whole-system runs through the real main()): mutated configuration trees, each loaded with --test and started for real with one probe per listener; exit-with-error-or-run oracle with panic hook and watchdog"
 RULE = ("plans: a generated valid configuration (all listener/connector kinds, TLS, auth, load balancers, rules, access log script format, metrics, timeouts, ioParams) with "
         "0-3 tree mutations: delete a key, retype a scalar (string/int/bool/list/map/null), duplicate or reserved names, unknown/empty type names, out-of-range numbers "
